@@ -31,6 +31,10 @@ def tasks(tier):
                 if 0 <= c < v2len:
                     ts.append(Task('verifHarness_C01_v2', [n, signed, c]))
         ts.append(Task('verifHarness_C01_v1_refuse', [n]))
+        if tier != 'quick' or n in (0, 1, 3, 128, 255):
+            for signed in (0, 1):
+                ts.append(Task('verifHarness_C01_v2_smallbuf', [n, signed]))
+            ts.append(Task('verifHarness_C01_v1_smallbuf', [n]))
     if tier != 'quick':
         # every cut point for a few lengths
         for n in (0, 1, 7):
@@ -42,7 +46,7 @@ def tasks(tier):
 
 
 def required_reach(tier):
-    return ['C01/v1', 'C01/v2', 'C01/refuse']
+    return ['C01/v1', 'C01/v2', 'C01/refuse', 'C01/v2s', 'C01/v1s']
 
 
 def bounds(tier):
@@ -53,6 +57,8 @@ def bounds(tier):
         'incompat_flag': '0 (unsigned) and 1 (signed), forked',
         'reader_chunking': 'single chunk and two chunks at the listed cut points'
                            + ('' if tier == 'quick' else '; every cut point for payload lengths 0, 1, 7'),
+        'caller_supplied_bufio': 'v1 and v2 round trip through Reader.BufByteReader = bufio.NewReaderSize(r, 16) (smallest bufio buffer), payload lengths '
+                                 + ('0,1,3,128,255' if tier == 'quick' else '0..255') + ', unsigned and signed',
         'dialect': 'none (raw messages); the with-dialect round trip is covered by C02/C08/C09 harnesses',
     }
 
